@@ -519,11 +519,11 @@ def replay_path(path, mode):
     try:
         need(rc.dict_check(rep, gens_of(k["gens"]), mode))
         if k["gens"]:   # a representation without generators has no dimension yet: no word is in the domain
-            need(rc.words_check(rep, mode, table_of(obs["vals"]), "image"))
+            need(rc.words_check(rep, mode, obs["vals_t"], "image", all_forms=False))
         if k["dkind"] != "none":
             dm = derived_mode(mode, der)
             need(rc.dict_check(der, gens_of(k["dgens"]), dm, "derived.generators"))
-            need(rc.words_check(der, dm, table_of(obs["dvals"]), "derived.image"))
+            need(rc.words_check(der, dm, obs["dvals_t"], "derived.image", all_forms=False))
         if mode.naming == "single" and mode.parse is None and k["gens"]:
             lowers = list(rep.asym_gens())
             dim = rep.dim
@@ -558,13 +558,14 @@ def paths_from(key, depth):
 
 
 def hist_chunk(args):
-    firsts, depth, quick = args
+    """units of work: a one-step history (replayed alone) or a two-step prefix with all its extensions"""
+    prefixes, depth, quick = args
     n, viol, sample = 0, [], None
     modes = hist_modes(quick)
-    for (act, to) in firsts:
-        tails = [[]] + list(paths_from(to, depth - 1))
+    for prefix in prefixes:
+        tails = [[]] + (list(paths_from(prefix[-1][1], depth - 2)) if len(prefix) == 2 else [])
         for tail in tails:
-            path = [(act, to)] + tail
+            path = prefix + tail
             for mode in modes:
                 n += 1
                 bad = replay_path(path, mode)
@@ -584,6 +585,8 @@ def histories(run, r, quick, depth):
     global HLTS, HOBS
     HOBS = {}
     for row in parse_rows(r.stdout, '"OBS '):
+        row["vals_t"] = table_of(row["vals"])
+        row["dvals_t"] = table_of(row["dvals"])
         HOBS[hkey(row["key"])] = row
     HLTS = {}
     seen = set()
@@ -599,10 +602,14 @@ def histories(run, r, quick, depth):
     init = hkey(dict(gens={}, dkind="none", dgens={}))
     if init not in HLTS:
         raise core.MachineryFailure("RepHist: initial state not found in the emitted LTS")
-    firsts = HLTS[init]
-    n = min(8, core.NCPU, len(firsts))
+    units = []
+    for first in HLTS[init]:
+        units.append([first])
+        for second in HLTS.get(first[1], ()):
+            units.append([first, second])
+    n = min(8 if quick else 12, core.NCPU, len(units))
     with mp.get_context("fork").Pool(n) as pool:
-        outs = pool.map(hist_chunk, [(firsts[i::n], depth, quick) for i in range(n)])
+        outs = pool.map(hist_chunk, [(units[i::4 * n], depth, quick) for i in range(4 * n)])
     tot = 0
     for k, viol, sample in outs:
         tot += k
@@ -648,9 +655,9 @@ def run(run, replay=None):
     recorded = rep_trace.record(run, quick)
     # the four TLC runs are independent: run them side by side (12 worker threads in total)
     with ThreadPoolExecutor(4) as ex:
-        f_rep = ex.submit(run.tlc, "rep/Rep.tla", c, name="Rep", workers=5, emit_prefix="\x00none")
+        f_rep = ex.submit(run.tlc, "rep/Rep.tla", c, name="Rep", workers=6, emit_prefix="\x00none")
         f_hist = ex.submit(run.tlc, "rep/RepHist.tla", hist_cfg(depth), name="RepHist", workers=2)
-        f_rand = ex.submit(run.tlc, rand_path, rand_cfg, name="RepRand", workers=3, emit_prefix="\x00none")
+        f_rand = ex.submit(run.tlc, rand_path, rand_cfg, name="RepRand", workers=2, emit_prefix="\x00none")
         f_trace = ex.submit(rep_trace.validate, run, recorded[0], "RepTrace") if recorded[0] else None
         results = [f.result() if f else None for f in (f_rep, f_hist, f_rand, f_trace)]
     tables(run, results[0], "Rep", quick)
